@@ -15,9 +15,11 @@ RULE = ('message sequences from an independent RFC 7230 serializer (harness/stre
 	'non-trivial = distinct message sequence with at least one body or repeated field')
 EXHAUSTIVE = {'quick': False, 'thorough': False}
 TRUSTED = pc.TRUSTED_COMMON + ['harness/streams.py gen_wf: the independent serializer and its ground truth']
-ASSUMPTIONS = ['requests that carry neither Content-Length nor chunked framing are compared only when nothing follows them in the same parse() call (known finding D13)']
+ASSUMPTIONS = ['responses whose reason phrase is empty are refused by the client (known finding D48) and excluded from the comparison', 'requests that carry neither Content-Length nor chunked framing are compared only when nothing follows them in the same parse() call (known finding D13)']
 D13 = 'D13-411-buffer-peek'
-WITNESSES = []
+D48 = 'D48-empty-reason-phrase'
+_W48 = b'HTTP/1.1 204 \r\nX: y\r\n\r\n'
+WITNESSES = [(D48, {'k': 'wf', 'kind': 'client', 'gt': [{'version': [1, 1], 'status': 204, 'reason': '', 'fields': {'x': [b'y'.hex()]}, 'body': '', 'framed': True}], 'sers': [_W48.hex()], 'trunc': [5]})]
 
 
 def gen_cases(rng, tier):
@@ -102,7 +104,7 @@ def oracle(c, o):
 	for call, f in zip(r['calls'], frags):
 		fed += len(f)
 		if 'err' in call:
-			return 'well-formed pipeline refused with %r after %d octets (fragmentation %s...)' % (call['err'], fed, r['cuts'][:3])
+			return 'well-formed pipeline refused with %r after %d octets, in message %d (fragmentation %s...)' % (call['err'], fed, sum(1 for e in ends if e < fed), r['cuts'][:3])
 		delivered.extend(call['msgs'])
 		want = sum(1 for e in ends if e <= fed)
 		if len(delivered) != want:
@@ -138,6 +140,11 @@ def oracle(c, o):
 def classify(c, o, fail):
 	if 'refused with 411' in fail and any(r.get('raised_411') for r in o['runs']) and any(not gt['framed'] for gt in c['gt']):
 		return D13
+	import re
+	m = re.search(r'refused with 400 after \d+ octets, in message (\d+) ', fail) or re.search(r'message (\d+) parsed alone is refused with 400', fail)
+	if m and c['kind'] == 'client' and int(m.group(1)) < len(c['gt']) and c['gt'][int(m.group(1))].get('reason') == '':
+		# the refused message is the one whose status line ends with the SP after the code
+		return D48
 	return None
 
 
